@@ -5,12 +5,15 @@ package c05
 import (
 	"fmt"
 	"testing"
+	"time"
 
+	"github.com/go-i2p/common/data"
 	"github.com/go-i2p/common/encrypted_leaseset"
 	"github.com/go-i2p/common/lease_set"
 	"github.com/go-i2p/common/lease_set2"
 	"github.com/go-i2p/common/meta_leaseset"
 	"github.com/go-i2p/common/offline_signature"
+	"github.com/go-i2p/common/router_address"
 	"github.com/go-i2p/common/router_info"
 	"pgregory.net/rapid"
 
@@ -20,7 +23,7 @@ import (
 	"verif/internal/model"
 )
 
-const rule = "cases: signed structures built by the independent model and signed with stdlib crypto - RouterInfo (Ed25519, DSA, P-256, P-384 identities), LeaseSet (DSA incl. NULL certificate, P-256, P-384, Ed25519, RedDSA), LeaseSet2 / MetaLeaseSet (library-documented layout) / EncryptedLeaseSet with and without offline block (identity types as above, transient types 0,1,2,7,11), standalone OfflineSignature - (one base in three is instead built and signed by the library's own constructors, so that a verifier that is lenient in the same way as the signer is exposed by the edits) x adversarial derivations: genuine; offline block with a random signature; offline block signed by another key of the identity's type (transplanted from another identity); outer signature random or made by an attacker key; 1-3 byte-level edits (bit flips, byte sets, 2-byte field +-k, insertions, deletions, truncation, appended data) aimed at header, length, count, flag and key fields or anywhere. Oracle: if the library parses the derived bytes and reports success, then (i) the strict model decodes exactly the consumed bytes, (ii) the outer signature verifies (crypto/ed25519, crypto/ecdsa, crypto/dsa) over prefix || consumed[:-sig] under the identity key, or under the transient key if flag bit 0 is set AND the offline block's signature verifies over expires||type||key under the identity key (blinded key for EncryptedLeaseSet). Non-trivial: the derived input is not genuine and still parses; distinct by input bytes."
+const rule = "cases: signed structures built by the independent model and signed with stdlib crypto - RouterInfo (Ed25519, DSA, P-256, P-384 identities), LeaseSet (DSA incl. NULL certificate, P-256, P-384, Ed25519, RedDSA), LeaseSet2 / MetaLeaseSet (library-documented layout) / EncryptedLeaseSet with and without offline block (identity types as above, transient types 0,1,2,7,11), standalone OfflineSignature - (one base in three is instead built and signed by the library's own constructors, so that a verifier that is lenient in the same way as the signer is exposed by the edits) x adversarial derivations: genuine; offline block with a random signature; offline block signed by another key of the identity's type (transplanted from another identity); outer signature random or made by an attacker key; field-level tampering of an options mapping after signing (pair with empty key or empty value added, pair appended / dropped / duplicated, order reversed, value changed - in RouterInfo options, address options, LeaseSet2 options, MetaLeaseSet options and entry properties); 1-3 byte-level edits (bit flips, byte sets, 2-byte field +-k, insertions, deletions, truncation, appended data) aimed at header, length, count, flag and key fields or anywhere. Oracle: if the library parses the derived bytes and reports success, then (i) the strict model decodes exactly the consumed bytes, (ii) the outer signature verifies (crypto/ed25519, crypto/ecdsa, crypto/dsa) over prefix || consumed[:-sig] under the identity key, or under the transient key if flag bit 0 is set AND the offline block's signature verifies over expires||type||key under the identity key (blinded key for EncryptedLeaseSet). After a RouterInfo has verified, it is changed through the exported API (AddAddress, or the cost of an address through the pointer RouterAddresses() returns) and verified again: success must then hold over the value's new serialisation. Non-trivial: the derived input is not genuine and still parses; distinct by input bytes."
 
 func TestMain(m *testing.M) { ev.Main(m, "C05", rule) }
 
@@ -41,6 +44,9 @@ type Case struct {
 	LibSigned bool `json:"lib_signed,omitempty"`
 	// byte-level edits applied to the encoding: [kind, pos, val]
 	Edits [][3]int `json:"edits,omitempty"`
+	// Tamper: field-level change of a mapping inside the signed structure (decoded with the
+	// model, changed, re-encoded with the stale signature): [which mapping, kind]; kind 0 = none
+	Tamper [2]int `json:"tamper,omitempty"`
 	// standalone offline signature: key handed to VerifySignature: 0 the right one, 1 another key, 2 wrong length
 	OffKey int `json:"off_key,omitempty"`
 }
@@ -95,6 +101,118 @@ func applyEdits(b []byte, edits [][3]int) []byte {
 		}
 	}
 	return b
+}
+
+// tamperPairs changes one mapping: 1 append a pair with an empty key, 2 prepend an
+// empty pair, 3 append a new key, 4 drop the last pair, 5 reverse the order, 6 change a
+// value, 7 duplicate the first pair, 8 append a pair with an empty value.
+func tamperPairs(p []model.Pair, kind int) ([]model.Pair, bool) {
+	out := append([]model.Pair{}, p...)
+	switch kind {
+	case 1:
+		return append(out, model.Pair{K: nil, V: []byte("x")}), true
+	case 2:
+		return append([]model.Pair{{}}, out...), true
+	case 3:
+		return append(out, model.Pair{K: []byte("zz"), V: []byte("1")}), true
+	case 4:
+		if len(out) == 0 {
+			return out, false
+		}
+		return out[:len(out)-1], true
+	case 5:
+		if len(out) < 2 {
+			return out, false
+		}
+		for i, j := 0, len(out)-1; i < j; i, j = i+1, j-1 {
+			out[i], out[j] = out[j], out[i]
+		}
+		return out, true
+	case 6:
+		if len(out) == 0 {
+			return out, false
+		}
+		v := append([]byte{}, out[0].V...)
+		if len(v) == 0 {
+			v = []byte{'1'}
+		} else {
+			v[0] ^= 1
+		}
+		out[0] = model.Pair{K: out[0].K, V: v}
+		return out, true
+	case 7:
+		if len(out) == 0 {
+			return out, false
+		}
+		return append(out, out[0]), true
+	case 8:
+		return append(out, model.Pair{K: []byte("k"), V: nil}), true
+	}
+	return out, false
+}
+
+// tamper applies Case.Tamper to the encoding of a signed structure; the signature
+// stays what it was. ok=false: not applicable (nothing changed, not decodable).
+func tamper(c Case, b []byte) ([]byte, bool) {
+	which, kind := c.Tamper[0], c.Tamper[1]
+	if kind == 0 {
+		return b, false
+	}
+	fits := func(p []model.Pair) bool { return model.MappingBodyLen(p) <= 65535 }
+	switch c.Kind {
+	case "ri":
+		m, n, err := model.DecodeRouterInfo(b)
+		if err != nil || n != len(b) {
+			return b, false
+		}
+		if which%2 == 1 && len(m.Addrs) > 0 {
+			i := (which / 2) % len(m.Addrs)
+			p, ok := tamperPairs(m.Addrs[i].Options, kind)
+			if !ok || !fits(p) {
+				return b, false
+			}
+			m.Addrs[i].Options = p
+		} else {
+			p, ok := tamperPairs(m.Options, kind)
+			if !ok || !fits(p) {
+				return b, false
+			}
+			m.Options = p
+		}
+		return m.Encode(), true
+	case "ls2":
+		m, n, err := model.DecodeLS2(b)
+		if err != nil || n != len(b) {
+			return b, false
+		}
+		p, ok := tamperPairs(m.Options, kind)
+		if !ok || !fits(p) {
+			return b, false
+		}
+		m.Options = p
+		return m.Encode(), true
+	case "meta":
+		m, n, err := model.DecodeMetaLS(b)
+		if err != nil || n != len(b) {
+			return b, false
+		}
+		if which%2 == 1 && len(m.Entries) > 0 {
+			i := (which / 2) % len(m.Entries)
+			p, ok := tamperPairs(m.Entries[i].Props, kind)
+			if !ok || !fits(p) {
+				return b, false
+			}
+			m.Entries[i].Props = p
+		} else {
+			p, ok := tamperPairs(m.Options, kind)
+			if !ok || !fits(p) {
+				return b, false
+			}
+			m.Options = p
+		}
+		return m.Encode(), true
+	}
+	return b, false
 }
 
 // base returns the bytes of the (possibly attacker-signed) structure before edits.
@@ -162,7 +280,12 @@ func check(c Case, r *ev.Rec) error {
 		if c.SigMode != 0 {
 			m.Sig = attackerSig(m.Ident.SigType, c.RI.Ident.KeySeed, m.SignedPart(), c.SigMode)
 		}
-		in = applyEdits(orLib(c, r, m.Encode()), c.Edits)
+		base, tampered := tamper(c, orLib(c, r, m.Encode()))
+		if tampered {
+			genuine = false
+			r.Class(fmt.Sprintf("ri:mapping-tampered,kind=%d", c.Tamper[1]))
+		}
+		in = applyEdits(base, c.Edits)
 		info, rem, err := router_info.ReadRouterInfo(in)
 		if err != nil {
 			r.Class("ri:unparseable")
@@ -173,7 +296,34 @@ func check(c Case, r *ev.Rec) error {
 		cons := in[:len(in)-len(rem)]
 		dm, n, derr := model.DecodeRouterInfo(cons)
 		auth := derr == nil && n == len(cons) && model.Verify(dm.Ident.SigType, dm.Ident.Sig, cons[:len(cons)-len(dm.Sig)], dm.Sig)
-		return verdict(c, r, "RouterInfo.VerifySignature", success, auth, genuine, dm.Ident.SigType == 7, in, derr)
+		if err := verdict(c, r, "RouterInfo.VerifySignature", success, auth, genuine, dm.Ident.SigType == 7, in, derr); err != nil {
+			return err
+		}
+		// history: the value is changed through the exported API after it has verified;
+		// success must still mean "valid over what the value now serialises to"
+		if success {
+			which := "AddAddress"
+			if addrs := info.RouterAddresses(); len(addrs) > 0 && len(in)%2 == 0 {
+				which = "cost of RouterAddresses()[0] changed through the returned pointer"
+				nc, _ := data.NewIntegerFromInt((addrs[0].Cost()+1)%256, 1)
+				addrs[0].TransportCost = nc
+			} else {
+				a, err := router_address.NewRouterAddress(9, time.Unix(0, 0), "NTCP2", map[string]string{"host": "10.0.0.1", "port": "4567"})
+				if err != nil || info.AddAddress(a) != nil {
+					return nil
+				}
+			}
+			ok2, verr2 := info.VerifySignature()
+			b2, berr := info.Bytes()
+			if ok2 && verr2 == nil {
+				dm2, n2, derr2 := model.DecodeRouterInfo(b2)
+				if berr != nil || derr2 != nil || n2 != len(b2) || !model.Verify(dm2.Ident.SigType, dm2.Ident.Sig, b2[:len(b2)-len(dm2.Sig)], dm2.Sig) {
+					return fmt.Errorf("RouterInfo.VerifySignature still reports success after %s: the signature does not cover what the value now serialises to", which)
+				}
+			}
+			r.Class("ri:changed-after-verify")
+		}
+		return nil
 	case "ls":
 		m, _ := c.LS.Build()
 		if c.SigMode == 3 {
@@ -207,7 +357,12 @@ func check(c Case, r *ev.Rec) error {
 		} else if c.SigMode != 0 {
 			m.Sig = attackerSig(m.OuterSigType(), c.LS2.Header.Dest.KeySeed, m.SignedPart(), c.SigMode)
 		}
-		in = applyEdits(orLib(c, r, m.Encode()), c.Edits)
+		base, tampered := tamper(c, orLib(c, r, m.Encode()))
+		if tampered {
+			genuine = false
+			r.Class(fmt.Sprintf("ls2:mapping-tampered,kind=%d", c.Tamper[1]))
+		}
+		in = applyEdits(base, c.Edits)
 		ls, rem, err := lease_set2.ReadLeaseSet2(in)
 		if err != nil {
 			r.Class("ls2:unparseable")
@@ -230,7 +385,12 @@ func check(c Case, r *ev.Rec) error {
 		} else if c.SigMode != 0 {
 			m.Sig = attackerSig(m.OuterSigType(), c.Meta.Header.Dest.KeySeed, m.SignedPart(), c.SigMode)
 		}
-		in = applyEdits(m.Encode(), c.Edits)
+		base, tampered := tamper(c, m.Encode())
+		if tampered {
+			genuine = false
+			r.Class(fmt.Sprintf("meta:mapping-tampered,kind=%d", c.Tamper[1]))
+		}
+		in = applyEdits(base, c.Edits)
 		ls, rem, err := meta_leaseset.ReadMetaLeaseSet(in)
 		if err != nil {
 			r.Class("meta:unparseable")
@@ -459,6 +619,12 @@ func genCase(t *rapid.T) Case {
 	}
 	c.SigMode = rapid.SampledFrom([]int{0, 0, 0, 1, 2, 3}).Draw(t, "sigmode")
 	c.LibSigned = rapid.IntRange(0, 2).Draw(t, "libsigned") == 0
+	if (c.Kind == "ri" || c.Kind == "ls2" || c.Kind == "meta") && rapid.IntRange(0, 3).Draw(t, "tamper") == 0 {
+		c.Tamper = [2]int{rapid.IntRange(0, 7).Draw(t, "twhich"), rapid.IntRange(1, 8).Draw(t, "tkind")}
+		if rapid.Bool().Draw(t, "tamperonly") {
+			c.SigMode = 0
+		}
+	}
 	if rapid.IntRange(0, 3).Draw(t, "edit") > 0 {
 		c.Edits = editsG(t, rapid.IntRange(1, 3).Draw(t, "nedits"), hotOffsets)
 	}
